@@ -440,6 +440,30 @@ example : exSpm.wf .spm99 ∧ (save .spm99 exEnv ⟨.none, some 1, .none⟩ exSp
     Chunk.mat (spmM false exAff) (spmMat exAff) ∈ (save .spm99 exEnv ⟨.none, some 1, .none⟩ exSpm).out := by
   refine ⟨by unfold Img.wf Core.wf; decide, by decide, by decide⟩
 
+/-! ### the source still has the shape the step machine is written for -/
+
+/-- **skeleton_agrees**: the skeletons extracted from the AST of the working tree (ordered header mutations,
+    I/O, bindings, restores of the `finally:` blocks with their conditions, aliases of `self._affine` and in-place
+    stores, the memmap copy with its condition) are the ones the model is written for; and the copy of a
+    memory-mapped volume precedes the first open-for-write in both writers that have it -/
+theorem skeleton_agrees :
+    Gen.skelAnalyze = expectedSkelAnalyze ∧ Gen.skelNifti = expectedSkelNifti ∧ Gen.skelSpm = expectedSkelSpm ∧
+    Gen.skelMgh = expectedSkelMgh ∧ Gen.skelCifti = expectedSkelCifti ∧ Gen.skelToFilename = expectedSkelToFilename ∧
+    Gen.copyBeforeOpenAnalyze = true ∧ Gen.copyBeforeOpenMgh = true ∧ Gen.inplaceOnAffineAlias = [] := by
+  decide
+
+/-- **analyze_try_order**: the events of the `try:` body of `AnalyzeImage.to_file_map`, in source order, are
+    exactly the steps of the model's `coreBody`, in order -/
+theorem analyze_try_order :
+    Gen.skelAnalyze.filterMap srcToken = (coreBody skelCtx).filterMap stepToken := by
+  decide
+
+/-- **analyze_finally_is_restore**: the `finally:` block of the source consists of exactly the statements
+    `restore` models, in that order (nothing that can raise in between) -/
+theorem analyze_finally_is_restore :
+    (Gen.skelAnalyze.filter (fun t => t.1 = "finally: ")).map (·.2) = restoreTokens := by
+  decide
+
 /-! ### gzip destinations -/
 
 /-- **nib_gzip_independent**: the gzip stream nibabel produces (`DeterministicGzipFile`: `filename=''`,
